@@ -117,7 +117,7 @@ theorem insFold_cm (rel : Relevant) (t : Bool) (H : Nat) (base : CoinMap) (L : L
 theorem nextStep_cm {env : Env} {t : Bool} {H : Nat} {st st' : State} {tx : Tx} (ht : st.tip906 = t)
     (h : CMInv t H st.coins) (hs : nextStep env t st tx = .ok st') :
     st'.tip906 = t ∧ CMInv t H st'.coins := by
-  obtain ⟨hF, coins2, mf, hrm, -, -, rfl⟩ := C3.nextStep_iff.mp hs
+  obtain ⟨-, hF, coins2, mf, hrm, -, -, rfl⟩ := C3.nextStep_iff.mp hs
   refine ⟨by rw [← ht]; exact C3.tip906_eq rfl rfl, ?_⟩
   have hfc : CMInv t H (C3.fcoins env st tx) := by
     unfold C3.fcoins
